@@ -642,6 +642,31 @@ Definition bobs_eqb (a b : bobs) : bool :=
    loop reads the same bytes again from offset 0 *)
 Definition buffered_attempt_bodies (body : bytes) (attempts : nat) : list bytes := repeat body attempts.
 
+(* ---- bufferedBody (body.go): the buffered bytes and the read offset of the embedded bytes.Reader.
+   Before EVERY attempt the retry loop calls rewind (Seek(0, SeekStart), whatever the offset);
+   the attempt's transport then reads some of the body — all of it, or only [k] bytes when the
+   backend dies mid-body — and that is where the next attempt finds the offset. ---- *)
+Record bbody := { bb_data : bytes; bb_off : nat }.
+Definition bb_len (b : bbody) : nat := length (bb_data b) - bb_off b.                    (* Reader.Len *)
+Definition bb_rewind (b : bbody) : bbody := {| bb_data := bb_data b; bb_off := 0 |}.
+(* reading at most k bytes (None: until EOF) *)
+Definition bb_read (b : bbody) (k : option nat) : bytes * bbody :=
+  let rest := skipn (bb_off b) (bb_data b) in
+  let got := match k with Some n => firstn n rest | None => rest end in
+  (got, {| bb_data := bb_data b; bb_off := bb_off b + length got |}).
+Fixpoint attempt_reads_with (rw : bbody -> bbody) (b : bbody) (ks : list (option nat)) : list bytes :=
+  match ks with
+  | [] => []
+  | k :: r => let '(got, b') := bb_read (rw b) k in got :: attempt_reads_with rw b' r
+  end.
+Definition attempt_reads : bbody -> list (option nat) -> list bytes := attempt_reads_with bb_rewind.
+(* what every attempt must be able to read: the client's body from its first byte *)
+Definition prefix_asked (body : bytes) (k : option nat) : bytes :=
+  match k with Some n => firstn n body | None => body end.
+(* a rewind that only acts on a drained body (offset = length), for C04_Props.C04_rewind_only_when_drained_refuted *)
+Definition bb_rewind_if_drained (b : bbody) : bbody := if Nat.eqb (bb_len b) 0 then bb_rewind b else b.
+Definition asked_of (z : Z) : option nat := if (z <? 0)%Z then None else Some (Z.to_nat z).
+
 Record creq := { cr_salt : N; cr_len : N; cr_chunked : bool; cr_fails : nat; cr_rsalt : N; cr_rlen : N }.
 Record cattempt := { ca_target : nat; ca_body : bobs; ca_cl : Z }.
 Record cobs := { cq_attempts : list cattempt; cq_status : N; cq_ret : N; cq_body : bobs }.
@@ -674,9 +699,44 @@ Definition conc_spec_fail (nhosts : nat) (r : creq) (o : cobs) : list bytes :=
   when_not (own_bytes (cq_body o) (cr_rsalt r) (cr_rlen r)) (tag "<response-body>"%string).
 
 
+(* ---- retries after a backend died mid-body (harness kind "retrybody"): per attempt, how many body
+   bytes its backend asked for before failing (-1: read to EOF), what it could read, the
+   Content-Length it was announced, and whether it was a scripted failure ---- *)
+Record ratt := { ra_asked : Z; ra_body : bobs; ra_cl : Z; ra_failed : bool }.
+Definition eff_len (len : N) (asked : Z) : N := if (asked <? 0)%Z then len else N.min (Z.to_N asked) len.
+(* descriptor of a byte string relative to the pattern of [salt] *)
+Fixpoint first_diff (l : bytes) (salt off : N) : option N :=
+  match l with
+  | [] => None
+  | c :: r => if c =? pat_byte salt off then first_diff r salt (off + 1) else Some off
+  end.
+Definition describe (salt : N) (l : bytes) : bobs :=
+  let n := N.of_nat (length l) in
+  let h := N.to_nat (N.min n window) in
+  {| bo_len := n; bo_diff := first_diff l salt 0; bo_head := firstn h l; bo_tail := skipn (length l - h) l |}.
+Definition SMALL_BODY : N := 600.
+Definition retry_model_bodies (salt len : N) (asks : list Z) : list bobs :=
+  if len <=? SMALL_BODY
+  then map (describe salt) (attempt_reads {| bb_data := pat salt len; bb_off := 0 |} (map asked_of asks))
+  else map (fun a => desc_of_pat salt (eff_len len a)) asks.
+Fixpoint fails_then_ok (l : list bool) : bool :=
+  match l with
+  | [] => false
+  | [f] => negb f
+  | f :: r => f && fails_then_ok r
+  end.
+Definition retry_spec_fail (salt len : N) (chunked : bool) (atts : list ratt) (status ret : N) : list bytes :=
+  when_not (fails_then_ok (map ra_failed atts)) (tag "<attempts>"%string) ++
+  when_not (forallb (fun a => own_bytes (ra_body a) salt (eff_len len (ra_asked a))) atts) (tag "<request-body>"%string) ++
+  when_not (forallb (fun a => if chunked then (ra_cl a <=? 0)%Z else (ra_cl a =? Z.of_N len)%Z) atts) (tag "<content-length>"%string) ++
+  when_not ((status =? 200) && (ret =? 0)) (tag "<status>"%string).
+
+
 (* ================= cases ================= *)
 Record client_obs := { co_status : N; co_hdr : hdr; co_trailers : hdr; co_body : bytes }.
-Record sent_obs := { so_target : nat; so_method : bytes; so_sent : sent; so_read : bool; so_body : bytes; so_cl : Z; so_chunked : bool }.
+(* so_read: the attempt's backend read the body; so_asked: how many bytes it asked for before it
+   failed (-1: until EOF); so_body: what it could read *)
+Record sent_obs := { so_target : nat; so_method : bytes; so_sent : sent; so_read : bool; so_asked : Z; so_body : bytes; so_cl : Z; so_chunked : bool }.
 
 
 (* ---- recording ResponseWriter (harness): the calls ReverseProxy.ServeHTTP made on it ---- *)
@@ -739,7 +799,10 @@ Inductive case :=
    Proxy.ServeHTTP into a recording ResponseWriter: every call on the writer, in order *)
 | CRelay (b : bresp) (salt len : N) (script : list nat) (eofd : bool) (obs : relay_obs)
 (* concurrent requests through one proxy with retries (see above) *)
-| CConc (nhosts : nat) (reqs : list (creq * cobs)).
+| CConc (nhosts : nat) (reqs : list (creq * cobs))
+(* one request whose first attempts die after their backend read only part of the body (scripted
+   transport, or the real transport against loopback backends that reset the connection) *)
+| CRetryBody (wire : bool) (salt len : N) (chunked : bool) (atts : list ratt) (status ret : N).
 
 Definition opt_nat_eqb (a b : option nat) : bool :=
   match a, b with None, None => true | Some x, Some y => Nat.eqb x y | _, _ => false end.
@@ -806,7 +869,7 @@ Definition spec_attempt_fail (ds : list directive) (ts : list target) (q : reque
            (so : sent_obs) : list bytes :=
   when_not (Nat.ltb (so_target so) (length ts)) (tag "<target>"%string) ++
   when_not (beq (so_method so) (q_method q)) (tag "<method>"%string) ++
-  when_not (negb (so_read so) || beq (so_body so) body) (tag "<body>"%string) ++
+  when_not (negb (so_read so) || beq (so_body so) (prefix_asked body (asked_of (so_asked so)))) (tag "<body>"%string) ++
   when_not (if chunked then (so_cl so <=? 0)%Z else (so_cl so =? Z.of_nat (length body))%Z) (tag "<content-length>"%string) ++
   spec_sent_fail ds q (nth (so_target so) ts dflt_target) (so_sent so).
 
@@ -833,7 +896,10 @@ Definition judge (c : case) : N :=
       let chosen := map (fun so => nth (so_target so) ts dflt_target) obs_sent in
       let nobs := length obs_sent in
       let answered := Nat.ltb fails nobs in
+      let readers := filter so_read obs_sent in
       let agree :=
+        list_beq beq (map so_body readers)
+                 (attempt_reads {| bb_data := body; bb_off := 0 |} (map (fun so => asked_of (so_asked so)) readers)) &&
         is_nil (agree_sent_pointwise cfg retry q chosen (map so_sent obs_sent)) &&
         (if answered then is_nil (agree_client_fail cfg q (q_hdr q) pre b oc) else (ret =? 502)) in
       let spec :=
@@ -883,4 +949,7 @@ Definition judge (c : case) : N :=
   | CConc nhosts reqs =>
       verdict (forallb (fun ro => conc_model_ok (fst ro) (snd ro)) reqs)
               (forallb (fun ro => is_nil (conc_spec_fail nhosts (fst ro) (snd ro))) reqs)
+  | CRetryBody wire salt len chunked atts status ret =>
+      verdict (list_beq bobs_eqb (map ra_body atts) (retry_model_bodies salt len (map ra_asked atts)) && (status =? 200))
+              (is_nil (retry_spec_fail salt len chunked atts status ret))
   end.
